@@ -16,4 +16,4 @@ for c in "$@"; do
   echo "== $c exit=$rc: $(echo "$out" | grep -v '^  ' | tail -1 | cut -c1-200)"
   echo "$out" | grep -A1 "^VIOLATION" | head -4 | cut -c1-400
 done
-if [ -n "$SCRATCH" ]; then rm -rf /tmp/seedrepo; else git -C /repo checkout -- .; git -C /repo status --short | grep -v _build; fi
+if [ -n "$SCRATCH" ]; then python3 /verif/bin/vbuild.py --drop; rm -rf /tmp/seedrepo; else git -C /repo checkout -- .; git -C /repo status --short | grep -v _build; fi
